@@ -126,6 +126,7 @@ impl Check for C06 {
             .set("minimal", minimal)
             .set("reheads", J::Arr(reheads))
             .set("read_fault_at", 1 + rng.below(3))
+            .set("dest_pre", *rng.pick(&["absent", "absent", "longer_file", "stale_tmp", "symlink"]))
     }
     fn execute(&self, _cap: &Capture, scenario: &J) -> Report {
         let mut report = Report::default();
@@ -166,6 +167,20 @@ impl Check for C06 {
         let asm = scratch.path("p.asm");
         let obj = scratch.path("p.lc3");
         std::fs::write(&asm, &source).expect("source");
+        // What already lies at the destination must not leak into the object file
+        let junk: Vec<u8> = std::iter::repeat(b"OLD".iter().copied()).flatten().take(expected.len() + 600).collect();
+        let dest_pre = scenario.get_str("dest_pre").unwrap_or("absent");
+        match dest_pre {
+            "longer_file" => std::fs::write(&obj, &junk).expect("old object"),
+            "stale_tmp" => std::fs::write(scratch.path("p.lc3.tmp"), &junk).expect("stale tmp"),
+            "symlink" => {
+                let target = scratch.path("real-object.bin");
+                std::fs::write(&target, &junk).expect("symlink target");
+                std::os::unix::fs::symlink(&target, &obj).expect("symlink");
+            }
+            _ => {}
+        }
+        report.hit(&format!("fault:destination_{}", dest_pre));
         let mut v: Vec<Violation> = Vec::new();
         let mut hash: Vec<u8> = Vec::new();
         let mut procs = 0u64;
@@ -202,7 +217,7 @@ impl Check for C06 {
             };
             v.push(Violation::new(
                 ID,
-                format!("C06/compile/bytes/{}", what),
+                format!("C06/compile/bytes/{}/dest={}", what, dest_pre),
                 format!("object file has {} bytes {:02x?}.., expected {} bytes {:02x?}..", written.len(), &written[..written.len().min(8)], expected.len(), &expected[..expected.len().min(8)]),
             ));
         }
